@@ -14,6 +14,7 @@ import Golib.Udp.Packs
 import Golib.Udp.ParamKV
 import Golib.Udp.Merge
 import Golib.Udp.Route
+import Golib.Udp.WFB
 import Golib.Gen.UdpLayouts
 
 namespace C07Gen
@@ -179,6 +180,14 @@ theorem source_roundtrip :
   rw [List.all_eq_true] at this
   exact merged_roundtrip _ _ (this nwr h)
 
+/-- non-vacuity of `source_roundtrip`: the layout computed for UdpTxEndPack has well-formed packs -/
+example : (merge Gen.UdpTxEndPack.w Gen.UdpTxEndPack.r).map (fun m => wfB m 50101
+    (Rec.ofList [("Txid", .int 1), ("Time", .int 2), ("Elapsed", .int 3), ("Cpu", .int 0), ("Mem", .int 0), ("Pid", .int 9),
+      ("ThreadId", .int 8), ("Host", .str [104]), ("Uri", .str [47]), ("Mtid", .int (-7)), ("Mdepth", .int 1),
+      ("McallerTxid", .int 0), ("McallerPcode", .int 5), ("McallerSpec", .str []), ("McallerUrl", .str [49]),
+      ("McallerPoidKey", .str []), ("Status", .int 200), ("McallerStepId", .int 4), ("XTraceId", .str [120])] (fun _ => .null))
+    (fun _ => .null)) = some true := by decide
+
 /-- the merged layouts computed from the source are the model's (reader's and writer's views) -/
 theorem merged_is_model :
     ∀ t ∈ allPacks, (((Gen.layouts.lookup t.name).bind (fun wr => merge wr.1 wr.2)).map (fun m => (wv m, rv m))) =
@@ -261,5 +270,11 @@ theorem no_package_state_written :
       (r.2.2.1 == "m" && r.1 == "lang/pack/udp" && (r.2.1 == "CreatePack" || r.2.1 == "ClosePack") &&
         (allPacks.map (·.pool)).contains r.2.2.2) ||
       (r == ("util/stringutil", "EscapeSpace", "m", "linuxPattern"))) = true := by decide
+
+/-- non-vacuity of `gen_route_clean`: a history over two source-derived types -/
+example : (match genPack "UdpTxEndPack", genPack "UdpTxMessagePack" with
+    | some a, some b => (runM genRouting [.close a (fun _ => .int 5), .close b (fun _ => .int 6),
+        .create b (some 0) 50100, .create a (some 0) 10101] (fun _ => [])).map (fun outs => outs.map fun o => (o.1.name, o.2.2 "Host", o.2.2 "Hash"))
+    | _, _ => none) = some [("UdpTxMessagePack", .int 6, .str []), ("UdpTxEndPack", .str [], .int 5)] := by decide
 
 end C07Gen
